@@ -64,7 +64,8 @@ _ALL = {
                      "index (M3); all row-aligned arrays are split by one splitter (M4); pointer lookups are offset by the "
                      "first chunk in the mask (M5); merge reducers are MERGE[class] (D2); every consumer of global codes is "
                      "dominated by unification (S2)."
-                     ' Also: null-code preservation (K2); slice-start normalisation (M6); order-preserving label union and looked-up pointer tables (P7b); per-thread chunks cover the whole array (P18).'),
+                     ' Also: null-code preservation (K2); slice-start normalisation (M6); order-preserving label union and looked-up pointer tables (P7b); per-thread chunks cover the whole array (P18).'
+                     " The merge target of a value column takes its dtype from that column's partials (M9)."),
         not_decided=["floating-point agreement of sums/means", "the 1,000,000-row thresholds (constants)",
                      "thread schedules are covered structurally by M3, not explored"],
         technique="call-site binding rules, def-use on the completion loop, typestate of the key representation",
@@ -128,7 +129,8 @@ _ALL = {
         explanation=("Decides the periphery of the rolling kernels, not the window arithmetic: null/mask guards (K1, K3); "
                      "counter width (K4); dtype provenance on selection paths so min/max/shift return input elements exactly "
                      "(K5); op -> kernel/flag dispatch and flag -> orientation (D3); restoration keeps the input's time unit (P10)."
-                     " Also: the comparison with the running extremum is guarded by the group's non-null count (D3b); group-sorted results are indexed by the inputs' common index (P11b)."),
+                     " Also: the comparison with the running extremum is guarded by the group's non-null count (D3b); group-sorted results are indexed by the inputs' common index (P11b)."
+                     ' The whole buffer row is rescanned only when the buffer is full (W4).'),
         not_decided=["circular-buffer arithmetic (eviction, wrap, recomputation of the extremum, min_periods) — loop "
                      "invariants over runtime quantities", "the group-sorted layout"],
         technique="fact walker, path enumeration, dtype-provenance classification, dispatch folding",
@@ -139,7 +141,8 @@ _ALL = {
                      "invalid rows read the group's own carried value (E2); the halflife->alpha conversion is the same "
                      "function of the raw parameter in both entry points (E1); the alignment decorator names real "
                      "parameters (A2); masked rows (K3, with the documented exemption and known finding)."
-                     ' Also: the time-weighted kernel advances the clock exactly where it decays (E3, both directions); the alpha kernels multiply the running state by beta exactly once on every row path (E4); row-aligned inputs are re-ordered by one indexer (M7); on every valid-row path of the four adjusted kernels out = (x + R)/(1 + W) followed by R += x and W += 1 (E5).'),
+                     ' Also: the time-weighted kernel advances the clock exactly where it decays (E3, both directions); the alpha kernels multiply the running state by beta exactly once on every row path (E4); row-aligned inputs are re-ordered by one indexer (M7); on every valid-row path of the four adjusted kernels out = (x + R)/(1 + W) followed by R += x and W += 1 (E5).'
+                     ' ema / ema_grouped dispatch only to the kernels of their own family (E6); the per-group clock of the timed kernel is an integer array (E7); integer views of timestamps are taken only after an explicit unit normalisation and zones are never dropped with tz_localize(None) (P24).'),
         not_decided=["the closed form, alpha/beta arithmetic, time decay, equality of grouped and ungrouped series"],
         technique="fact walker; expression normal-form comparison; decorator-name rule",
     ),
@@ -148,7 +151,8 @@ _ALL = {
         explanation=("Decides two structural necessary conditions: the sort permutation derived from the labels reaches the "
                      "result and count frames on every non-transform path (P4); key names are assigned on every constructing "
                      "path (P9)."
-                     ' Also: first-appearance order of the chunk-wise label union (P7b); common index of group-sorted results (P11b); generated names only for None (P13); pointer offsets (M5); selector index space (P5b); the label sort key ranks each level by the inverse permutation, in level order, and is the identity for categorical / already sorted labels (L1); the result is squeezed to 1-D exactly for a single 1-D input and loses its name only when the input had none (L2).'),
+                     ' Also: first-appearance order of the chunk-wise label union (P7b); common index of group-sorted results (P11b); generated names only for None (P13); pointer offsets (M5); selector index space (P5b); the label sort key ranks each level by the inverse permutation, in level order, and is the identity for categorical / already sorted labels (L1); the result is squeezed to 1-D exactly for a single 1-D input and loses its name only when the input had none (L2).'
+                     ' std/var forward observed_only (A3c, D7); the merge target dtype comes from the merged partials (M9); no shortcut around the lexicographic sort for several label levels (L1).'),
         not_decided=["actual order, category order, lexicographic order, column independence (value-level)"],
         technique="path rules over _apply_gb_reduction / __init__",
     ),
@@ -157,7 +161,8 @@ _ALL = {
         explanation=("Decides the dtype/exactness clauses: temporal cast<->restore pairing on all paths (P1); selection "
                      "reducers never do arithmetic on values (T2-L4); accumulator dtype table (T3); dtype provenance in "
                      "rolling selection paths (K5); unit-preserving restoration (P10)."
-                     ' Also: identifier widths (K4b); polars NaT preservation (P12); RangeIndex step (F1b); container-independent label order (P7b); one permutation (M7); value columns are never stacked into one array (P17).'),
+                     ' Also: identifier widths (K4b); polars NaT preservation (P12); RangeIndex step (F1b); container-independent label order (P7b); one permutation (M7); value columns are never stacked into one array (P17).'
+                     ' The group sums are cast to float64 before they are squared in var (D7c); merge target dtype per column (M9); temporal integer views (P24); no operation writes a caller-owned container (O1).'),
         not_decided=["equivalence of containers (third-party conversions)", "integer-sum wrap beyond the accumulator dtype table"],
         technique="path pairing; table laws; dtype provenance",
     ),
@@ -167,7 +172,8 @@ _ALL = {
                      "mutator from every state (S1); every consumer of global codes sees global codes (S2); every attribute "
                      "read by a method is initialised on every constructor path (S3); logical attributes are assigned only "
                      "during construction (S4)."
-                     ' Also: null-code preservation in the unifier (K2); a sliced key is never paired with the raw mask (M8); the copy constructor takes every attribute from the source (S3b).'),
+                     ' Also: null-code preservation in the unifier (K2); a sliced key is never paired with the raw mask (M8); the copy constructor takes every attribute from the source (S3b).'
+                     ' No cached property holds a value computed from the codes / pointer tables unless it is in the reviewed table of representation-invariant caches (S5); every attribute the regular constructor sets is copied by the copy constructor (S3b).'),
         not_decided=["equality of outputs across histories as a value relation (implied by the above)"],
         technique="finite abstract interpretation (typestate), definite-assignment, mutation containment",
     ),
@@ -176,7 +182,8 @@ _ALL = {
         explanation=("Decides the periphery of margins: imports on the margin path resolve in the pinned environment (A8); "
                      "margins are applied to sums and counts before the division (P2); margin aggregator table (T3); crosstab "
                      "forwards mask/margins/aggfunc (A3x)."
-                     ' Also: complementary row/column level split (P14); margin rows written by assignment, not by a null-skipping writer (P15); the nested-subtotal recursion runs for every requested level (P16).'),
+                     ' Also: complementary row/column level split (P14); margin rows written by assignment, not by a null-skipping writer (P15); the nested-subtotal recursion runs for every requested level (P16).'
+                     ' Margin subtotals group observed combinations only and the margin grid is filled with an integer-preserving value (P15b); crosstab hands the requested margin levels - derived from the row/column level split - to the grouping (A3y).'),
         not_decided=["add_row_margin re-aggregation/re-indexing arithmetic, unstacking and column order"],
         technique="link check; path rule; table; forwarding rule",
     ),
@@ -184,7 +191,8 @@ _ALL = {
         want=["K4@rowsel", "K1@rowsel", "A1", "R1", "P17", "H1", "K2", "P21"],
         explanation=("Decides the stated failure modes: per-group row counters are wide enough (K4); null-key rows are never "
                      "selected (K1); selection inputs are validated against the keys (A1)."
-                     ' Also: the backward scan of tail is flipped back (R1); the selected columns are not stacked into one array (P17); the occurrence counter of the scans is compared (== n / slot < n) before it is incremented, once per accepted row, and a negative n scans backwards with n := -n - 1 (H1).'),
+                     ' Also: the backward scan of tail is flipped back (R1); the selected columns are not stacked into one array (P17); the occurrence counter of the scans is compared (== n / slot < n) before it is incremented, once per accepted row, and a negative n scans backwards with n := -n - 1 (H1).'
+                     ' The null code survives the unification that head/tail/nth trigger (K2); the selected rows are taken from the values as given, not from the aggregation pre-processor (P21).'),
         not_decided=["that the scan picks the n-th occurrence (seen[k] == n arithmetic)", "index restoration"],
         technique="allocation-width rule; fact walker; must-validate",
     ),
@@ -192,7 +200,8 @@ _ALL = {
         want=["A3c", "D7", "P5b", "P20", "D7b", "D7c", "P22"],
         explanation=("Decides composition consistency: composites forward every semantic parameter to the primitives they are "
                      "defined by (A3c); var uses the three primitives with one shared keyword set and std delegates to var (D7)."
-                     ' Also: label-sorted arrays are filtered only by selectors in the same order (P5b); the composites apply no null-suppressing function (P20); the value returned by var is (sum_squares - sum^2/count)/(count - ddof) in canonical arithmetic form and std is its square root (D7b).'),
+                     ' Also: label-sorted arrays are filtered only by selectors in the same order (P5b); the composites apply no null-suppressing function (P20); the value returned by var is (sum_squares - sum^2/count)/(count - ddof) in canonical arithmetic form and std is its square root (D7b).'
+                     ' The sums are squared in float64 (D7c); the non-reduce probe doubles a one-element input by tiling (P22).'),
         not_decided=["variance accuracy, quantile equality with NumPy, apply semantics, densities summing to 100"],
         technique="parameter-forwarding over resolved call sites",
     ),
@@ -208,7 +217,8 @@ _ALL = {
         want=["A1", "A2", "A9"],
         explanation=("Decides 'misaligned => some validator runs before any consumer': every array parameter of every public "
                      "entry point reaches a validator that compares with the key length and key index before it is consumed "
-                     "(A1); decorator names are real parameters (A2)."),
+                     "(A1); decorator names are real parameters (A2)."
+                     ' Grouping keys and inputs are never re-aligned by label (no reindex/align) before grouping (A9); a parameter re-bound to an index-free copy before validation does not count as validated (A1).'),
         not_decided=["that aligned inputs are never rejected", "label alignment inside pandas calls"],
         technique="must-pass-through over the call graph; decorator-name rule",
     ),
@@ -224,7 +234,8 @@ _ALL = {
         explanation=("Decides the structure of the stand-alone reducers: binary reducer tables (T1b); reducer name -> (initial "
                      "value, chunk-combine reducer) table and null-skipping combine stage (D5); view/convert pairing in "
                      "reduce_1d (P1); null-skip shape of the chunk reducer (N1)."
-                     ' Also: the prologue of _nb_reduce (start index and accumulator per case, all-null exit) and the first-non-null scan (N1); per-thread chunks cover the array (P18); the array handed to searchsorted is sorted on every path (P19).'),
+                     ' Also: the prologue of _nb_reduce (start index and accumulator per case, all-null exit) and the first-non-null scan (N1); per-thread chunks cover the array (P18); the array handed to searchsorted is sorted on every path (P19).'
+                     ' Per-thread partial results keep the dtype the reducer produced (D5b); bools_to_categorical packs and decodes the same frame (P23); temporal integer views only after unit normalisation (P24).'),
         not_decided=["equality with NumPy, 2-D axis handling, nb_dot, bools_to_categorical, pretty_cut (value-level)"],
         technique="GCNF tables; dispatch folding; path pairing",
     ),
